@@ -174,7 +174,7 @@ def call_task(cname, datatype):
 # B/C. mutators and reads from every invariant state
 
 OPS = {
-    "Spectrum": ["data", "data_y", "sampling", "detrend", "scale_by_freq", "NFFT", "NFFT=None", "sides", "run",
+    "Spectrum": ["data", "data:dtype", "data_y", "sampling", "detrend", "scale_by_freq", "NFFT", "NFFT=None", "sides", "run",
                  "frequencies", "get_converted_psd"],
     "Fourier": ["window", "lag"],
     "Parametric": ["ar_order", "ma_order", "lag"],
@@ -213,6 +213,16 @@ def apply_op(I, dom, o, cname, datatype, op, arg=None):
         n2 = dom.input_int("N_new")
         I.assume(V.s_cmp(">=", n2, 1))
         new = dom.input_array("data_new", n2, "complex" if datatype == "complex" else "float")
+        I.st["assigned_data"] = (new, datatype)
+        I.setattr(o, "data", new)
+    elif op == "data:dtype":
+        # samples of the OTHER dtype (e.g. the same values declared complex): the datatype, and with it the default sides and the
+        # length of the estimate, must follow the assigned array
+        other = "real" if datatype == "complex" else "complex"
+        n2 = dom.input_int("N_new")
+        I.assume(V.s_cmp(">=", n2, 1))
+        new = dom.input_array("data_new", n2, "complex" if other == "complex" else "float")
+        I.st["assigned_data"] = (new, other)
         I.setattr(o, "data", new)
     elif op == "data_y":
         n2 = dom.input_int("Ny_new")
@@ -295,7 +305,25 @@ def op_task(cname, datatype, op, case, arg=None):
                     pass
                 P.fail("no-exception", "%s raises %s" % (op, P.value.exc), replay=("history", hints))
                 return
-            check_inv(P, o, cname, datatype)
+            eff = datatype
+            if "assigned_data" in st:
+                # setter postcondition: the object holds the value that was assigned (by value and by dtype)
+                new, eff = st["assigned_data"]
+                a_ = o.attrs
+                got = a_["_Spectrum__data"]
+                if not isinstance(got, Arr):
+                    P.fail("setter.data:stores-assigned-value", "data attribute is %r" % type(got).__name__, replay=("history", hints))
+                else:
+                    i = P.skolem("di", 0, new.n)
+                    P.prove("setter.data:stores-assigned-value", V.b_and(V.s_eq(got.n, new.n), V.s_eq(got.at(i), new.at(i))), replay=("history", hints))
+                    P.prove("setter.data:N=len(assigned)", V.s_eq(a_["_Spectrum__N"], new.n), replay=("history", hints))
+                dt_attr = a_["_Spectrum__datatype"]
+                if dt_attr == eff:
+                    P.ok("setter.data:datatype-follows-assigned-dtype")
+                else:
+                    P.fail("setter.data:datatype-follows-assigned-dtype", "datatype attribute is %r after assigning %s samples" % (dt_attr, eff),
+                           replay=("history", hints))
+            check_inv(P, o, cname, eff)
             if op == "read":
                 a = o.attrs
                 x = st["read"]
